@@ -126,6 +126,8 @@ func TestWorker(t *testing.T) {
 		replay(t)
 	case "minimise":
 		minimise(t)
+	case "deathsig":
+		deathSig(t)
 	default:
 		t.Fatalf("unknown SIM_MODE %q", mode)
 	}
@@ -209,7 +211,7 @@ func explore(t *testing.T) {
 		if viol >= maxViol {
 			break
 		}
-		if abandoned > 2000 || runtime.NumGoroutine() > 5000 {
+		if abandoned > 2000 || runtime.NumGoroutine() > 5000 || (v.Extra != nil && v.Extra["recycle_worker"] > 0) {
 			// too many leaked goroutines from abandoned runs: let the driver restart us
 			w.Flush()
 			fmt.Fprintf(os.Stderr, "RECYCLE next=%d\n", n+1)
@@ -230,6 +232,22 @@ func explore(t *testing.T) {
 		os.WriteFile(tf, []byte(b.String()), 0o644)
 	}
 	enc.Encode(map[string]any{"sketch": stateSketch.values()})
+	fmt.Fprintf(os.Stderr, "DONE\n")
+}
+
+// deathSig prints the signature an engine gives to the death of the worker that
+// was running the case stored in SIM_REPLAY (a bare Case written by SIM_DUMP_CASE).
+func deathSig(t *testing.T) {
+	sig := "process_death"
+	if b, err := os.ReadFile(os.Getenv("SIM_REPLAY")); err == nil {
+		var c Case
+		if json.Unmarshal(b, &c) == nil {
+			if e, ok := engines[c.Engine].(interface{ DeathSig(*Case) string }); ok {
+				sig = e.DeathSig(&c)
+			}
+		}
+	}
+	os.WriteFile(os.Getenv("SIM_OUT"), []byte(sig), 0o644)
 	fmt.Fprintf(os.Stderr, "DONE\n")
 }
 
